@@ -97,6 +97,12 @@ def run(ctx):
         kind = int(rng.integers(0, 6))          # drawn, as are the storage sizes and the file round trip below (no modular coupling)
         L = rng.integers(3, 9, 3) * Q                     # 3..8 length units
         tilt = [int(rng.integers(-L[0] // 2, L[0] // 2 + 1)) if rng.random() < .5 else 0 for _ in range(3)]
+        if rng.random() < .25:          # thin, strongly sheared cell: a combination of cell vectors (b - a, c - b) is shorter than each of them
+            L[1] = int(rng.integers(2, 4)) * Q
+            tilt[0] = int(L[0] - Q * rng.integers(0, 2))            # multiples of Q keep every position on the integer grid
+            if rng.random() < .5:
+                L[2] = int(rng.integers(2, 4)) * Q
+                tilt[1], tilt[2] = int(tilt[0] // (2 * Q)) * Q, int(L[1] - Q * rng.integers(0, 2))
         v = [[int(L[0]), 0, 0], [tilt[0], int(L[1]), 0], [tilt[1], tilt[2], int(L[2])]]
         if rng.random() < .25:
             perm = rng.permutation(3)
